@@ -80,8 +80,9 @@ template <class BF, class L, int... Cs> struct MBits {                 // bit_al
 
 template <class M> std::vector<long long> distinct_vals(int base) { std::vector<long long> v; for (int k = 0; k < M::n; ++k) v.push_back((base + 3 * k + 1) % (M::maxv + 1)); return v; }
 
-template <class M> auto set_spare(M& m) -> decltype(m.spare_ones = true, void()) { m.spare_ones = true; }
-inline void set_spare(...) {}
+template <class M> auto set_spare_impl(M& m, int) -> decltype(m.spare_ones = true, void()) { m.spare_ones = true; }
+template <class M> void set_spare_impl(M&, long) {}
+template <class M> void set_spare(M& m) { set_spare_impl(m, 0); }
 template <class T> struct is_value_model : std::is_same<typename T::obj_t, typename T::value_t> {};
 
 // ---- events --------------------------------------------------------------------------------------------
